@@ -51,8 +51,6 @@ def syntax_children(a):
             if isinstance(v, ast.AST):
                 out.append((f, i, v))
 
-    if k is ast.JoinedStr:
-        return []  # f-string internals are outside the domain: a JoinedStr is a leaf
     if k is ast.Dict:
         for i, (kk, vv) in enumerate(zip(a.keys, a.values)):
             if kk is not None:
@@ -129,6 +127,9 @@ def tokenize_src(src):
                 # oracle repair (CPython 3.12.1 `tokenize`): the end column of a multi-line STRING token comes out short by
                 # the non-ASCII byte surplus of its earlier lines; the token text itself is exact, so its last line is used
                 ecol = len(t.string.rsplit('\n', 1)[1])
+            if tokenize.tok_name[t.type] == 'FSTRING_MIDDLE' and t.start[0] != t.end[0]:
+                ecol = -1  # same tokenize defect for multi-line FSTRING_MIDDLE; its text is not the source text (`{{`), so
+                #            the end is left unknown: the spec never needs it (literal parts end at the next structural token)
             toks.append([tokenize.tok_name[t.type], s, t.start[0], t.start[1], t.end[0], ecol])
     except (tokenize.TokenError, IndentationError, SyntaxError):
         return None
@@ -179,6 +180,10 @@ class Snapshot:
         self._blines = [ln.encode('utf-8') for ln in self.lines]
         self._tstart = {(t[2], t[3]): i + 1 for i, t in enumerate(self.toks)}
         self._tend = {(t[4], t[5]): i + 1 for i, t in enumerate(self.toks)}
+        # literal parts of f-strings start after / end before a structural token (witness kind 1, verified by the spec)
+        self._after = {(t[4], t[5]): i + 1 for i, t in enumerate(self.toks) if t[0] == 'FSTRING_START' or t[1] in ('}', '{')}
+        self._before = {(t[2], t[3]): i + 1 for i, t in enumerate(self.toks)
+                        if t[0] == 'FSTRING_END' or t[1] in ('{', '}', '!', ':')}
         self.nodes = []   # records (1-based ids)
         self.live = []    # live AST node per record (strong refs)
         self.by_live = {}
@@ -206,14 +211,23 @@ class Snapshot:
         if f is None:
             raise _Shape('live node without FST')
         nid = len(self.nodes) + 1
-        rec = {'k': o.__class__.__name__, 'par': par, 'fld': fld, 'fi': fi, 'ch': [], 'x': 0}
+        rec = {'k': o.__class__.__name__, 'par': par, 'fld': fld, 'fi': fi, 'ch': [], 'x': 0, 'tsk': 0, 'tek': 0}
         self.nodes.append(rec)
         self.live.append(a)
         self.by_live[id(a)] = nid
         if hasattr(o, 'end_col_offset') and o.end_col_offset is not None and hasattr(o, 'lineno'):
             rec['cp'] = [o.lineno, o.col_offset, o.end_lineno, o.end_col_offset]
-            rec['ts'] = self._tstart.get((o.lineno, self._b2c(o.lineno, o.col_offset)), 0)
-            rec['te'] = self._tend.get((o.end_lineno, self._b2c(o.end_lineno, o.end_col_offset)), 0)
+            ps = (o.lineno, self._b2c(o.lineno, o.col_offset))
+            pe = (o.end_lineno, self._b2c(o.end_lineno, o.end_col_offset))
+            rec['ts'] = self._tstart.get(ps, 0)
+            rec['te'] = self._tend.get(pe, 0)
+            if isinstance(o, ast.Constant) and fld == 'values':  # literal part of an f-string (parent is a JoinedStr)
+                if not rec['ts'] and ps in self._after:
+                    rec['ts'], rec['tsk'] = self._after[ps], 1
+                if not rec['te'] and pe in self._before:
+                    rec['te'], rec['tek'] = self._before[pe], 1
+            elif isinstance(o, ast.JoinedStr) and fld == 'format_spec' and not rec['te'] and pe in self._before:
+                rec['te'], rec['tek'] = self._before[pe], 1  # ends where the `}` of its field starts
         else:
             rec['cp'] = []
             rec['ts'] = rec['te'] = 0
@@ -237,8 +251,8 @@ class Snapshot:
                 raise _Shape(f'{rec["k"]}.{cf}[{ci}] missing in live tree')
             cid = self._add(oc, ac, nid, cf, ci, infstr)
             rec['ch'].append(cid)
-        # live tree must not have more children than the parse (shape equality both ways; f-strings are leaves)
-        if not isinstance(a, ast.JoinedStr) and len(syntax_children(a)) != len(och):
+        # live tree must not have more children than the parse (shape equality both ways)
+        if len(syntax_children(a)) != len(och):
             raise _Shape(f'{rec["k"]} child count')
         return nid
 
@@ -246,7 +260,7 @@ class Snapshot:
     def nid_of(self, fst_node):
         if fst_node is None:
             return 0
-        return self.by_live.get(id(fst_node.a), -1)  # -1: a node outside the table (f-string internals / ctx)
+        return self.by_live.get(id(fst_node.a), -1)  # -1: a node outside the table (expr_context)
 
     def query(self, frm, rect):
         f = self.live[frm - 1].f
@@ -653,7 +667,7 @@ match ä:
 class Ké("é".x): "é"  # é
 "é"; v = (ä)(ö)((ü))[ß:"é":ñ]; "é"
 ''',
-    # f-strings as opaque leaves next to nodes, string concatenation, nested parentheses
+    # f-strings next to nodes, string concatenation, nested parentheses
     '''
 a = f"{b}" + (c)
 a = (f"x{y}z") + "é" "é"
@@ -809,5 +823,44 @@ f = a < b, (c)
 f = not a, (b)
 f = a + b, (c)
 x += y; (z)
+''',
+    # f-string internals (CPython 3.12: tokens + positioned nodes): literal parts, fields, conversions, format specs with
+    # nested fields, self-documenting fields, nested f-strings, triple-quoted multi-line, implicit concatenation,
+    # parentheses in the literal text and around field expressions, multi-byte text before / inside / after
+    '''
+a = f"a{x}b"
+b = f"{x = }" + f"{x!r:>{w}.3}" + f"{x=}" + f"{ x = !s:^{w}}"
+c = f"a{{b}}{x}c" "d" f"{f"{y}"}{x:{y}>{z}}"
+d = f"({x})" f"[{(x)}]" f"{ (x) !s}" f"{((x))!r:({w})}" f"){x}("
+e = "p" f"q{x}r" "s" f"t" f"{y}" "u"
+g = f"{(lambda: (1))()}{[i for i in (j)]!a}{x if y else (z)}{x:}{{}}{x!r:}"
+h = rf"\\d{x}\\n" f"\\n{y}" fr"{z}\\d"
+i = f"{x:%H:%M}" f"{x:{y}{z}}" f"{x:{y:{z}}}" f"{a}{b}" f"{a} {b} "
+j = f"{x!r}" + f"{f"{f"{x}"}"}" + f"{'q'}" + f"{"q"}" + f"{f'{x:>{w}}'}"
+k = print(f"{x}", f"{y=}", sep=f"{z}")
+''',
+    '''
+"é"; a = f"é{ä!r:>{ö}}ü" "ß"; z = f"{ä=}é{ö = }ü"; "é"
+"日本"; b = f"日{本:{語}>{語}}本" + f"𝒳{x}𝒳{y!s}𝒳"; c = f"{"é"}{'ü' + ä}"  # é
+def fé(ä=f"{ö}é", *ü: f"é{ß}"): return f"é{ä}" f"{ü}é"  # ж
+x = f\'\'\'a{x:
+>5}é
+{y=}b
+{z
+=
+}c\'\'\' 'd'
+w = f\'\'\'{
+x!r
+:>{
+ w}}\'\'\'
+v = f"""é
+{ä}ü{ö
+}ß""" f"{x}" """
+é""" f"""{y
+=}"""
+u = (f"é{ä}"
+     "ü"
+     f"{ö}ß")
+if f"{x}": y = f"{x}"  # c
 ''',
 ]
